@@ -1213,7 +1213,7 @@ func init() {
 	mc.Register(&mc.Prop{
 		ID:    "C12",
 		Level: "exploration",
-		Rule: cliStreamRule[1:] + " " + "bounded-exhaustive enumeration of calls to RemoveGapSites, RemoveCharacterSites, RemoveMajorityCharacterSites, RemoveGapSeqs and RemoveCharacterSeqs on nucleotide and on protein alignments; " +
+		Rule: cliStreamRule[1:] + "(Free-running complement under the race detector: 8 goroutines doing this property's operations on objects of their own must get the values the same work gives alone.)  " + "bounded-exhaustive enumeration of calls to RemoveGapSites, RemoveCharacterSites, RemoveMajorityCharacterSites, RemoveGapSeqs and RemoveCharacterSeqs on nucleotide and on protein alignments; " +
 			"W/w stands for the wildcard of the alignment's own alphabet (N/n, X/x), O for the one of the other alphabet (X, N). Quick tier [thorough tier in brackets]: " +
 			"(1) every 1-column alignment of 1..4 [1..5] rows, (2) every 1-row alignment of 2..4 [2..5] sites and (3) every 2x2 alignment over {A,a,-,W,w,O}: RemoveCharacterSites with the sets {-},{A},{a},{A,W},{A,O} x all 2^5 combinations of ends/ignoreCase/ignoreGaps/ignoreNs/reverse, RemoveMajorityCharacterSites x 2^3 (ends, ignoreGaps, ignoreNs), RemoveGapSites x ends, RemoveCharacterSeqs with each of -,A,a,W,O x 2^3 (ignoreCase, ignoreGaps, ignoreNs), RemoveGapSeqs x ignoreNs; cutoffs -1, 1.5 and, for every fraction k/m with m <= number of rows (site operations) or <= number of sites (sequence operations), the float64 nearest to k/m, its predecessor and its successor; " +
 			"(3b) sets with a repeated character ({A,A}, {A,a}, {A,W,A}) x 2^5 on every 1-column alignment of 1..3 rows and every 2x2 alignment over {A,a,-,W}; after sequence cleaning, lookups by name find exactly the kept sequences; (4) ties: every 1-column alignment of 5..10 [6..12] rows over {A,-} (site operations, set {A}, ends x ignoreGaps x reverse) and every 1-row alignment of 5..10 [6..12] sites over {A,-} (sequence operations, character A), same cutoff family; " +
@@ -1230,6 +1230,8 @@ func init() {
 			"for the majority character it is left open whether the two cases of a letter are one character (either verdict accepted where it decides)",
 			"with every site qualifying, first = last = number of columns (each is the length of the maximal qualifying prefix / suffix)",
 		},
+		// free-running complement: goroutines that each own their objects must get what they get alone (harness/racepass)
+		Post:  func(m *mc.Master) { m.RacePass("own-clean") },
 		Tasks: func(tier string) []mc.Task { return append(c12Tasks(tier), cliStreamTasks("C12")...) },
 		Replay: func(c *mc.Ctx, payload json.RawMessage) {
 			if cliStreamReplay(c, payload) {
